@@ -7,16 +7,18 @@ Import ListNotations.
 Local Open Scope N_scope.
 
 Lemma corr_ps2_words_b :
-  forallb (fun w => outcome_eqb res_eqb (ps_add_word syn_ps2 (Ps2Decoder_mk 0 0) w) (ps_add_word ext_ps2 0 w))
-          (all_below 65536) = true.
+  ps_at_init syn_ps2 false (fun s0 =>
+    forallb (fun w => outcome_eqb res_eqb (ps_add_word syn_ps2 s0 w) (ps_add_word ext_ps2 0 w)) (all_below 65536)) = true.
 Proof. vm_compute. reflexivity. Qed.
+Lemma syn_ps2_init : exists s0, ps_init syn_ps2 = Ret s0. Proof. eexists; reflexivity. Qed.
 
 Theorem corr_ps2_words : forall s w, w < 65536 -> ps_add_word syn_ps2 s w = ps_add_word ext_ps2 0 w.
 Proof.
-  intros s w Hw. change (ps_add_word syn_ps2 s w) with (ps_add_word syn_ps2 (Ps2Decoder_mk 0 0) w).
-  pose proof (forallb_forall (fun w => outcome_eqb res_eqb (ps_add_word syn_ps2 (Ps2Decoder_mk 0 0) w) (ps_add_word ext_ps2 0 w)) (all_below 65536)) as [H _].
-  specialize (H corr_ps2_words_b w (all_below_complete 65536 w Hw)).
-  destruct (ores_eqb_spec (ps_add_word syn_ps2 (Ps2Decoder_mk 0 0) w) (ps_add_word ext_ps2 0 w)); [assumption | discriminate].
+  intros s w Hw. destruct syn_ps2_init as (s0 & Hi).
+  pose proof corr_ps2_words_b as Hb. rewrite (ps_at_init_elim _ _ _ _ s0 Hi) in Hb.
+  change (ps_add_word syn_ps2 s w) with (ps_add_word syn_ps2 s0 w).
+  rewrite forallb_forall in Hb. specialize (Hb w (all_below_complete 65536 w Hw)).
+  destruct (ores_eqb_spec (ps_add_word syn_ps2 s0 w) (ps_add_word ext_ps2 0 w)); [assumption | discriminate].
 Qed.
 
 
